@@ -478,6 +478,11 @@ class ShortTimeFourierTransformFrameComputer(LinearFilterBankFrameComputer):
             frame_length = self._frame_length
         frame_shift = self._frame_shift
         num_frames = max(0, (total_len - frame_length) // frame_shift + 1)
+        if noncausal_first and total_len < self._frame_length // 2 + 1:
+            # compute_full emits nothing for a signal this short. Only possible with
+            # kaldi_shift and a one-sample shift, where the first frame needs one
+            # sample fewer
+            num_frames = 0
         coeffs = np.empty((num_frames, self.num_coeffs), dtype=self._chunk_dtype)
         for frame_idx in range(num_frames):
             frame_start_idx = frame_idx * frame_shift
@@ -518,7 +523,7 @@ class ShortTimeFourierTransformFrameComputer(LinearFilterBankFrameComputer):
             self._compute_frame(frame, coeffs[frame_idx])
             self._first_frame = False
         rem_len = total_len - num_frames * frame_shift
-        assert rem_len < frame_length
+        assert rem_len < frame_length or (noncausal_first and not num_frames)
         if rem_len > 0:
             throw_away = total_len - rem_len
             if throw_away < buf_len:
@@ -554,6 +559,10 @@ class ShortTimeFourierTransformFrameComputer(LinearFilterBankFrameComputer):
             num_frames -= pad_left
             pad_left = 0
         num_frames //= frame_shift
+        if self._first_frame and buf_len < frame_length // 2 + 1:
+            # nothing was emitted and the whole signal is too short for compute_full
+            # to emit anything either
+            num_frames = 0
         if num_frames >= 1:
             pad_right = (num_frames - 1) * frame_shift + frame_length - buf_len
             pad_right -= pad_left
